@@ -241,6 +241,9 @@ func Scan(query string) []Token {
 					Span: newSpan(start, s.pos),
 				})
 			default:
+				if ok {
+					s.prev()
+				}
 				// TODO(maybe): Turn this into logical inversion?
 				// KQL seems to use the not() function.
 				tokens = append(tokens,
